@@ -58,8 +58,10 @@ func (er *ExchangeRate) Validate() error {
 
 // Convert performs the currency conversion defined by the exchange rate.
 func (er *ExchangeRate) Convert(amount num.Amount) num.Amount {
-	a := amount.Multiply(er.Amount)
 	z := er.To.Def().Zero()
+	// work with at least the destination currency's precision, otherwise an
+	// amount written with fewer decimals (e.g. "100") loses the fraction
+	a := amount.MatchPrecision(z).Multiply(er.Amount)
 	return a.Rescale(z.Exp()) // ensure scale always matches destination currency
 }
 
